@@ -53,6 +53,19 @@ def gen(rs: int, tier: str, index: int) -> dict:
     s = maybe_cli_entry(gen_worker_script(rs, tier_knobs(dict(kn, p_warn_error=0.08), tier, index)), index, 7, 5)
     from ._wcommon import sync_timeouts
     sync_timeouts(s, rs, "c02synctimeout")
+    from sim.rng import stream
+    rl = stream(rs, "c02labels")
+    if rl.random() < 0.2:
+        # a client-side pre_send middleware adds a label after the kicker typed the labels (no labels_types entry for it) and
+        # consumes another one (a labels_types entry without a label): such messages are processed and acknowledged like any other
+        s["config"]["client_label_adder"] = True
+        for m in s["messages"]:
+            if m.get("kind", "valid") == "valid" and rl.random() < 0.7:
+                m["labels"] = {"route": ["str", rl.choice(["fast", "slow"])], "prio": ["int", str(rl.randint(0, 9))]}
+                if rl.random() < 0.5:
+                    m["mw_pop_label"] = rl.choice(["route", "prio"])
+                if rl.random() < 0.7:
+                    m["mw_labels"] = {"origin": "api"}
     return s
 
 
